@@ -71,7 +71,7 @@ multt = {
          "decreases": "colbasisdim-i"},
     ],
     "min_obligations": 100, "tier": "thorough",
-    "flags": ["--bounds-check", "--pointer-check"],
+    "flags": ["--bounds-check", "--pointer-check", "--no-signed-overflow-check"],
     "mutants": [dict(m, slice="multBasisTranspose_row.inc") for m in [
         {"name": "scaled_col_when_unscaling", "find": "_solver.getColVectorUnscaled(index, col);\n               y.add(i, x * col);", "replace": "_solver.getColVectorUnscaled(index, col);\n               y.add(i, x * _solver.colVector(index));"},
         {"name": "index_transform", "find": "index = -index - 1;", "replace": "index = -index;"},
